@@ -48,6 +48,13 @@ pub fn run(tier: &str, seed: u64, report: &mut Report) {
         strings.push(random_path(&mut rng, COMPONENTS, 5));
         strings.push(random_string(&mut rng));
     }
+    // long components and long paths: legal wherever the rule says so — NTFS/HFS+ allow names of 255 UTF-16
+    // units (up to 765 bytes of UTF-8), Linux paths up to 4096 bytes
+    for (unit, n) in [("n", 255usize), ("n", 256), ("n", 1000), ("語", 86), ("語", 255), ("😀", 64), ("a/", 600), ("ab/", 2000)] {
+        let body = unit.repeat(n);
+        strings.push(format!("/{}", body.trim_end_matches('/')));
+        strings.push(format!("/x/{}/y", body.trim_end_matches('/')));
+    }
     strings.sort();
     strings.dedup();
     report.hit_n("strings", strings.len() as u64);
